@@ -102,8 +102,8 @@ def merge_cases(interp, base, cases, evar, fam, seg_guard, loop_id, nframe, pre_
     from .absint import iter_events
 
     for case in cases:
+        case.delta = compute_delta(interp, base, case.state, nframe, pre_oid, node)
         if case.sig[0] == "next":
-            case.delta = compute_delta(interp, base, case.state, nframe, pre_oid, node)
             # an insertion into a list that exists outside the loop is not an append: order unknown afterwards
             for ev, Q in iter_events(case.events):
                 if ev.kind in ("list.insert", "list.pop", "list.remove", "list.clear", "list.sort") and isinstance(ev.data.get("obj"), Ref) and ev.obj.oid <= pre_oid and ev.obj.oid in base.heap:
@@ -247,7 +247,9 @@ def merged_loop_value(interp, init, cs, evar, fam, loop_id, name, n_next):
 
 def apply_exit_case(interp, base, case, evar, nframe, pre_oid, node):
     """The loop is left at a witness element through ``case``: apply that path's own effects."""
-    delta = compute_delta(interp, base, case.state, nframe, pre_oid, node)
+    delta = getattr(case, "delta", None)
+    if delta is None:
+        delta = compute_delta(interp, base, case.state, nframe, pre_oid, node)
     memo = {}
     imp = lambda v: interp.import_value(v, case.state, pre_oid, memo)  # noqa: E731
     for d in delta:
@@ -265,11 +267,17 @@ def apply_exit_case(interp, base, case, evar, nframe, pre_oid, node):
                 base.heap[d[1]].attrs[k] = imp(v)
         elif kind == "solver":
             o = base.heap[d[1]]
-            co = case.state.heap[d[1]]
-            o.frames = [list(fr) for fr in co.frames]
-            o.soft = [list(fr) for fr in co.soft]
-            o.objectives = list(co.objectives)
-            o.options = dict(co.options)
+            dd = d[2]
+            for j, items in dd["frames"].items():
+                if j == "new":
+                    o.frames.append(list(items))
+                    o.soft.append([])
+                else:
+                    o.frames[j].extend(items)
+            for j, items in dd["soft"].items():
+                (o.soft[-1] if j == "new" else o.soft[j]).extend(items)
+            o.objectives.extend(dd["objectives"])
+            o.options.update(dd["options"])
         elif kind == "wcnf":
             o = base.heap[d[1]]
             o.hard.extend(d[2])
